@@ -45,7 +45,8 @@ MANIFEST = {
             'is evaluated at every scheduling point of every execution: a '
             'template marked as compiled holds the completely compiled block '
             'list (what a further thread arriving at that moment would '
-            'render).  Every thread must obtain exactly its '
+            'render), and a template that was completely compiled never '
+            'loses that state again.  Every thread must obtain exactly its '
             'sequential result.',
     'note': 'Trusted: dtmc/sched.py (baton scheduler; replay of a schedule '
             'must reproduce the same point sequence or the run is a harness '
@@ -311,12 +312,22 @@ def make_bodies_factory(name, fam, nthreads):
             # the completely compiled block list -- what any other thread
             # entering __call__ at this moment would render
             d = t.__dict__
-            if '_v_cooked' not in d:
-                return None
+            if '_v_cooked' not in d or '_v_blocks' not in d:
+                # once completely compiled, a shared template stays so:
+                # another thread may be about to render its block list
+                if seen.get('was-complete'):
+                    return ('compiled template lost %s again' % (
+                        '_v_cooked' if '_v_cooked' not in d
+                        else '_v_blocks'))
+                if '_v_cooked' not in d:
+                    return None
             blocks = d.get('_v_blocks')
             key = (id(blocks), len(blocks) if blocks is not None else -1)
             if key not in seen:
+                was = seen.get('was-complete')
                 seen.clear()
+                if was:
+                    seen['was-complete'] = True
                 try:
                     seen[key] = blocks is not None and \
                         digest(fingerprint(blocks)) == ref_digest
@@ -325,6 +336,7 @@ def make_bodies_factory(name, fam, nthreads):
             if not seen[key]:
                 return 'marked compiled but %d of %d blocks present' % (
                     key[1], len(ref._v_blocks))
+            seen['was-complete'] = True
             return None
         make.observer = observer
         return [lambda i=i: t(**nss[i]) for i in range(nthreads)]
